@@ -19,6 +19,7 @@
   correspondence stream and the harness oracle only).
 -/
 import Umya.Lemmas.Date
+import Umya.Lemmas.TablesGen
 namespace Umya.Thm.C18
 open Umya.Date Umya.Spec.Calendar Umya.Lemmas.Calendar Umya.Lemmas.Date
 
@@ -297,5 +298,14 @@ example : (convertDateF Fix 2021 6 2 5 4 2).map excelToDateTime =
 
 example : strftimeOf "yyyy-mm-dd hh:mm:ss".toList = some "%Y-%m-%d %H:%M:%S".toList := by decide
 example : strftimeOf "d-mmm-yy h:mm AM/PM".toList = some "%-d-%b-%y %-I:%M %P".toList := by decide
+
+
+/-- **Tie to the source (T).**  The date-format token tables of the model are
+    `DATE_FORMAT_REPLACEMENTS`, `…_24`, `…_12` of date_formater.rs as regenerated on this run (order included). -/
+theorem C18_tables_match_source :
+    Umya.Gen.date_format_replacements = Umya.Date.dateReplacements ∧
+    Umya.Gen.date_format_replacements_24 = Umya.Date.dateReplacements24 ∧
+    Umya.Gen.date_format_replacements_12 = Umya.Date.dateReplacements12 :=
+  Umya.Gen.gen_date_replacements
 
 end Umya.Thm.C18
